@@ -13,6 +13,8 @@ CONSTANTS
   MaxTx = 8
   SupplyCap = 14
   DataVals = {7, 8}
+  ConsArgs <- ConsNone
+  ConArgs <- ConsNone
   InitLedgers <- InitZ
   FailOdds = 4
   EndOdds = 3
